@@ -57,7 +57,29 @@ impl<T> RwLock<T> {
     self.state.set(-1);
     Lk(RwLockWriteGuard { l: self })
   }
+  /// non-blocking variants: fail exactly when the blocking variant would have to wait
+  pub fn try_read(&self) -> Result<RwLockReadGuard<'_, T>, TryLockError> {
+    if self.state.get() >= 0 {
+      self.state.set(self.state.get() + 1);
+      Ok(RwLockReadGuard { l: self })
+    } else {
+      Err(TryLockError)
+    }
+  }
+  pub fn try_write(&self) -> Result<RwLockWriteGuard<'_, T>, TryLockError> {
+    if self.state.get() == 0 {
+      self.state.set(-1);
+      Ok(RwLockWriteGuard { l: self })
+    } else {
+      Err(TryLockError)
+    }
+  }
+  pub fn into_inner(self) -> Lk<T> {
+    Lk(self.v.into_inner())
+  }
 }
+#[derive(Debug)]
+pub struct TryLockError;
 impl<'a, T> Deref for RwLockReadGuard<'a, T> {
   type Target = T;
   #[inline(always)]
@@ -89,60 +111,90 @@ impl<'a, T> Drop for RwLockWriteGuard<'a, T> {
   }
 }
 
-/// association-list map with the HashMap methods the crate uses.  Iteration order: insertion order, or its reverse when
-/// `REVERSE_ITER` is set by the harness (so order-dependence of HashMap iteration is exercised for both orders of <=2 entries).
+/// fixed-capacity association map with the HashMap methods the crate uses (no heap: a `Vec<(K, Observer)>` made CBMC's drop-glue
+/// exploration blow up).  Capacity MAP_CAP entries (inserting more is reported as a harness bound violation).  Iteration order:
+/// slot order, or its reverse when `REVERSE_ITER` is set by the harness (so order-dependence of HashMap iteration is exercised
+/// for both orders).
+pub const MAP_CAP: usize = 3;
 pub struct HashMap<K, V> {
-  e: Vec<(K, V)>,
+  e: [Option<(K, V)>; MAP_CAP],
 }
 pub static REVERSE_ITER: std::sync::atomic::AtomicBool = std::sync::atomic::AtomicBool::new(false);
 
 impl<K: PartialEq, V> HashMap<K, V> {
   pub fn new() -> HashMap<K, V> {
-    HashMap { e: Vec::new() }
+    HashMap { e: [None, None, None] }
+  }
+  fn find(&self, k: &K) -> Option<usize> {
+    macro_rules! at {
+      ($i:expr) => {
+        if let Some((kk, _)) = &self.e[$i] {
+          if *kk == *k {
+            return Some($i);
+          }
+        }
+      };
+    }
+    at!(0);
+    at!(1);
+    at!(2);
+    None
   }
   pub fn insert(&mut self, k: K, v: V) -> Option<V> {
-    let mut i = 0;
-    while i < self.e.len() {
-      if self.e[i].0 == k {
-        let old = std::mem::replace(&mut self.e[i].1, v);
-        return Some(old);
-      }
-      i += 1;
+    if let Some(i) = self.find(&k) {
+      let old = self.e[i].take();
+      self.e[i] = Some((k, v));
+      return old.map(|x| x.1);
     }
-    self.e.push((k, v));
+    macro_rules! at {
+      ($i:expr) => {
+        if self.e[$i].is_none() {
+          self.e[$i] = Some((k, v));
+          return None;
+        }
+      };
+    }
+    at!(0);
+    at!(1);
+    at!(2);
+    deadlock_check(false); // harness bound exceeded: more than MAP_CAP entries
     None
   }
   pub fn remove(&mut self, k: &K) -> Option<V> {
-    let mut i = 0;
-    while i < self.e.len() {
-      if self.e[i].0 == *k {
-        return Some(self.e.remove(i).1);
-      }
-      i += 1;
+    match self.find(k) {
+      Some(i) => self.e[i].take().map(|x| x.1),
+      None => None,
     }
-    None
   }
   pub fn get(&self, k: &K) -> Option<&V> {
-    let mut i = 0;
-    while i < self.e.len() {
-      if self.e[i].0 == *k {
-        return Some(&self.e[i].1);
-      }
-      i += 1;
+    match self.find(k) {
+      Some(i) => self.e[i].as_ref().map(|x| &x.1),
+      None => None,
     }
-    None
   }
   pub fn contains_key(&self, k: &K) -> bool {
-    self.get(k).is_some()
+    self.find(k).is_some()
   }
   pub fn len(&self) -> usize {
-    self.e.len()
+    let mut n = 0;
+    if self.e[0].is_some() {
+      n += 1;
+    }
+    if self.e[1].is_some() {
+      n += 1;
+    }
+    if self.e[2].is_some() {
+      n += 1;
+    }
+    n
   }
   pub fn is_empty(&self) -> bool {
-    self.e.is_empty()
+    self.len() == 0
   }
   pub fn clear(&mut self) {
-    self.e.clear();
+    self.e[0] = None;
+    self.e[1] = None;
+    self.e[2] = None;
   }
   pub fn iter(&self) -> MapIter<'_, K, V> {
     MapIter { m: self, i: 0, rev: REVERSE_ITER.load(std::sync::atomic::Ordering::Relaxed) }
@@ -156,13 +208,21 @@ pub struct MapIter<'a, K, V> {
 impl<'a, K, V> Iterator for MapIter<'a, K, V> {
   type Item = (&'a K, &'a V);
   fn next(&mut self) -> Option<(&'a K, &'a V)> {
-    let n = self.m.e.len();
-    if self.i >= n {
-      return None;
+    // loop-free (unrolled over MAP_CAP)
+    macro_rules! step {
+      () => {
+        if self.i < MAP_CAP {
+          let idx = if self.rev { MAP_CAP - 1 - self.i } else { self.i };
+          self.i += 1;
+          if let Some((k, v)) = &self.m.e[idx] {
+            return Some((k, v));
+          }
+        }
+      };
     }
-    let idx = if self.rev { n - 1 - self.i } else { self.i };
-    self.i += 1;
-    let (k, v) = &self.m.e[idx];
-    Some((k, v))
+    step!();
+    step!();
+    step!();
+    None
   }
 }
